@@ -231,6 +231,10 @@ class Model:
                 name, 'str, ' if c.get('str_mixin') else ''))
             for i, m in enumerate(c['members']):
                 L.append('    %s = %d' % (m, i + 1))
+            # aliases: further names for members (same value)
+            for alias, target in sorted((c.get('aliases') or {}).items()):
+                L.append('    %s = %d' % (alias,
+                                          c['members'].index(target) + 1))
             L.extend(h.rstrip('\n') for h in hooks)
             return '\n'.join(L) + '\n'
         if kind == 'str':
